@@ -97,6 +97,8 @@ def render_expr(x, abs_dir, leaf=None):
         names.append(leaf)
     fname = '/'.join(names) if names else "''"
     rel = x['rel']
+    if rel in RELOPT and not names and x.get('role') == 'copydst':
+        return RELOPT[rel]          # the relativity option alone: that root directory itself
     if rel in RELOPT:
         return RELOPT[rel] + ' ' + fname
     if rel == 'default':
